@@ -108,7 +108,7 @@ def run(ctx, job):
             rows = both(c1.a, c2.a) + both(c1.g, c2.g)
             names = O.names_of(rows)
             A, b = O.matrix_of(rows, names)
-            ctx.obligation("valueerror-only-if-unsatisfiable", lp.feasible_formula(A, b))
+            ctx.obligation("valueerror-only-if-unsatisfiable", lp.feasibility_claims(ctx.mode, A, b)[0])
         else:
             ctx.expect("mergeable-interfaces-do-not-raise-IAE", False, info=cls)
         return {"cls": cls}
@@ -133,7 +133,7 @@ def run(ctx, job):
             # one order may detect unsatisfiability that the other returns as an unsatisfiable contract
             rows = a12 + g12
             A, b = O.matrix_of(rows, names)
-            ctx.obligation("other-order-valueerror-only-if-unsatisfiable", lp.feasible_formula(A, b))
+            ctx.obligation("other-order-valueerror-only-if-unsatisfiable", lp.feasibility_claims(ctx.mode, A, b)[0])
         else:
             ctx.expect("other-order-also-returns", False, info=B.classify(e))
         return {"cls": "OK", "res": r}
